@@ -22,11 +22,12 @@ PROP = "C09"
 LEAN_MODULES = ["LunaVerif.Props.C09Spec", "LunaVerif.Lemmas.C09Stage", "LunaVerif.Lemmas.C09Block",
                 "LunaVerif.Lemmas.C09BlockReq", "LunaVerif.Lemmas.C09Dist", "LunaVerif.Lemmas.C09DistReq",
                 "LunaVerif.Lemmas.C09Rom", "LunaVerif.Lemmas.C09RomLookup", "LunaVerif.Lemmas.C09RomCorrect",
-                "LunaVerif.Props.C09"]
+                "LunaVerif.Props.C09", "LunaVerif.Lemmas.C09Mux", "LunaVerif.Props.C09Mux"]
 DRIVER = "Driver/C09.lean"
 REQUIRED_THEOREMS = ["datastage_exact", "dataStage_concat", "dataStage_packet_le", "rom_lookup_correct",
                      "block_packet_exact", "dist_packet_exact", "stall_without_data_when_absent_block",
-                     "stall_without_data_when_absent_dist"]
+                     "stall_without_data_when_absent_dist", "dist_runtime_packet_exact", "mux_packet_exact",
+                     "mux_stall_iff_absent"]
 RULE = ("cases = (handler class in {block, distributed, mux(block+distributed runtime)}, max packet size in "
         "{8,16,32,64}, random descriptor collection of 1..10 descriptors with lengths 1..300 weighted to "
         "packet-size multiples, types 0..15 and a few vendor types, sparse/consecutive indexes, string descriptors, "
@@ -46,10 +47,13 @@ ASSUMPTIONS = [
     "start_position == its length; the fixed-descriptor path was repaired for that case, see notes/C09.md)",
 ]
 PARTIAL = ("rom_lookup_correct (wellFormed coll -> romOk (Rom.layout coll) coll) is proved for arbitrary collections, "
-           "and block_packet_exact / stall_without_data_when_absent_block / dist_packet_exact are full per request.  "
-           "Not covered by theorems (co-simulation + monitor only): the mux model "
-           "(stall latches, tx OR/mux), runtime-descriptor generators, that the handlers are idle again when the "
-           "next IN arrives (each request is proved from an arbitrary idle state), and the composition with the "
+           "and block_packet_exact / stall_without_data_when_absent_block / dist_packet_exact are full per request; "
+           "mux_packet_exact composes the block handler (fixed descriptors) and the distributed handler (runtime "
+           "descriptors = USBDescriptorStreamGenerator over bytes, requests strictly inside the descriptor) through "
+           "the mux model from any stall-latch values.  "
+           "Not covered by theorems (co-simulation + monitor only): that the handlers are idle again when the "
+           "next IN arrives (each request is proved from an arbitrary idle state), runtime generators other than "
+           "the repo's USBDescriptorStreamGenerator, and the composition with the "
            "real StandardRequestHandler/packet generator (mimicked by the testbench).")
 
 MPS = (8, 16, 32, 64)
